@@ -5,6 +5,8 @@ CONSTANTS
   BothFill = FALSE
   Seed <- EnvSeed
   PropLimit = 60
+  Thin = 5
+  BigMult = 25
   Emit = TRUE
 INVARIANTS Check CalcVector
 CHECK_DEADLOCK FALSE
